@@ -594,7 +594,7 @@ def _sizes_strategy(size):
 def writer_spec(draw, size, bias_correct):
     kind = draw(st.sampled_from(KINDS + ["correct"] * bias_correct + ["flip", "flip"]))
     sizes = draw(_sizes_strategy(size))
-    if draw(st.integers(0, 19)) == 0:
+    if draw(st.sampled_from([False] * 14 + [True])):
         sizes = sizes + [0]
     return {"kind": kind, "p": draw(st.integers(0, 1 << 22)), "mask": draw(st.integers(1, 255)),
             "seed": draw(st.integers(0, 999)), "sizes": sizes, "align": draw(st.booleans()),
@@ -638,12 +638,12 @@ def case_strategy(draw, big=False, tier="quick"):
 
 
 PARTS = [
-    Part("schedules", lambda tier: case_strategy(big=False, tier=tier), run_case, 700, 4000, quick_shards=4,
+    Part("schedules", lambda tier: case_strategy(big=False, tier=tier), run_case, 1000, 15000, quick_shards=4,
          thorough_shards=16,
          essential=("writers_ge2_interleaved", "verified", "not_verified", "two_complete_before_callback",
                     "blob:file", "blob:buffer", "blob:manager_file", "blob:manager_buffer", "declared:over_max",
                     "declared:minus", "declared:plus", "opened_after_win", "size_io_boundary",
                     "close_by_cancel", "close_by_handle", "write_on_closed_oserror")),
-    Part("big", lambda tier: case_strategy(big=True, tier=tier), run_case, 8, 120, quick_shards=4, thorough_shards=16,
+    Part("big", lambda tier: case_strategy(big=True, tier=tier), run_case, 8, 150, quick_shards=4, thorough_shards=16,
          essential=("size_2MiB", "verified")),
 ]
